@@ -264,6 +264,33 @@ theorem construct_eq {e : Engine α} {g : Graph α} (h : construct e = .ok g) :
     · injection h with h
       exact ⟨st, hst, h.symm⟩
 
+/-- the error branches of `construct`: a `KeyError` is raised exactly for a fed-back name that
+    is not a node, `diverges` only for a node whose `_ancestry` loop runs out of rounds -/
+theorem construct_error {e : Engine α} {err : Err α} (h : construct e = .error err) :
+    (∃ k n, err = .keyError n ∧ k ∈ (buildFlat e).tbl.keys ∧ n ∈ e.feedbackOf k ∧
+      n ∉ (buildFlat e).tbl.keys) ∨
+    (∃ st k, err = .diverges k ∧ feedbackPass e (buildFlat e).tbl.keys = .ok st ∧
+      ancestryOf (mkGraph (buildFlat e) st).parents (mkGraph (buildFlat e) st).keys k = none) := by
+  unfold construct at h
+  simp only at h
+  split at h
+  · rename_i err' herr
+    injection h with h
+    subst h
+    obtain ⟨⟨k, n⟩, hev, h1, h2⟩ := fbFold_error _ _ _ _ herr
+    obtain ⟨hk, hn⟩ := (mem_fbEvents e _ k n).1 hev
+    exact Or.inl ⟨k, n, h1, hk, hn, h2⟩
+  · rename_i st hst
+    split at h
+    · rename_i k hk
+      injection h with h
+      have := List.find?_some hk
+      refine Or.inr ⟨st, k, h.symm, hst, ?_⟩
+      cases hh : ancestryOf (mkGraph (buildFlat e) st).parents (mkGraph (buildFlat e) st).keys k with
+      | none => rfl
+      | some _ => rw [hh] at this; cases this
+    · cases h
+
 theorem feedbackOf_declared {e : Engine α} (hwf : WF e) {k f : Name α} (hf : f ∈ e.feedbackOf k) :
     f ∈ (buildFlat e).tbl.keys := by
   unfold Engine.feedbackOf at hf
